@@ -17,6 +17,15 @@ import PygModel.TableBasic
 
 namespace Pyg
 
+/-- `[f x for x in xs]` where `f` may raise: the first error wins (structural, so that proofs can follow it) -/
+def mapE {α β ε} (f : α → Except ε β) : List α → Except ε (List β)
+  | [] => .ok []
+  | x :: xs => match f x with
+    | .error e => .error e
+    | .ok y => match mapE f xs with
+      | .error e => .error e
+      | .ok ys => .ok (y :: ys)
+
 /-! ### `_zip.py` -/
 
 /-- `lens(*values)` on the list of `len0(value)`s (src/pyg_base/_zip.py:6-36): 0 without values, the
@@ -232,9 +241,9 @@ def updateE (t : Table) (kvs : List (String × ColVal)) : Except Err Table :=
 
 /-- `d[i]`: `{key: value[i]}` -/
 def getRow (t : Table) (i : Int) : Except Err (List (String × Cell)) :=
-  t.mapM fun c => match pyIdx c.2.length i with
-    | some j => .ok (c.1, c.2.getD j .none)
-    | Option.none => .error .index
+  mapE (fun (c : String × List Cell) => match pyIdx c.2.length i with
+    | some j => Except.ok (c.1, c.2.getD j Cell.none)
+    | Option.none => Except.error Err.index) t
 
 /-- `d[key]` for a string -/
 def getColE (t : Table) (k : String) : Except Err (List Cell) :=
@@ -247,14 +256,15 @@ def iter (t : Table) : List (List (String × Cell)) := t.rows.map fun r => t.col
 
 /-- `d[k1, k2, ...]`: `list(zip(*[self[k] for k in item]))` -/
 def getTuple (t : Table) (ks : List String) : Except Err (List (List Cell)) :=
-  match ks.mapM t.getColE with
+  match mapE t.getColE ks with
   | .error e => .error e
   | .ok cs => .ok ((List.range ((cs.map (·.length)).foldl min (cs.headD []).length)).map fun i =>
       cs.map fun c => c.getD i .none)
 
 /-- `d[a:b:s]`: every column is sliced (line 381); `ValueError` for a zero step (if there is a column) -/
 def getSlice (t : Table) (a b : Option Int) (s : Option Int) : Except Err Table :=
-  t.mapM fun c => if s == some 0 then .error .value else .ok (c.1, pySlice c.2 a b (s.getD 1))
+  if s == some 0 && !t.isEmpty then .error .value
+  else .ok (t.map fun c => (c.1, pySlice c.2 a b (s.getD 1)))
 
 /-- row indices kept by a boolean mask: `[row for row, tf in zipper(list(self), mask) if tf]`
 (a length-1 mask is repeated; so is the single row of a 1-row table) -/
@@ -272,14 +282,14 @@ def getMask (t : Table) (m : List Bool) : Except Err Table :=
 /-- `d[[i, j, ...]]` (lines 392-394), non-empty int list; `d[[]]` is `emptyLike` (line 386) -/
 def getTake (t : Table) (is : List Int) : Except Err Table :=
   if is.isEmpty then .ok t.emptyLike else
-  match is.mapM fun i => pyIdx t.nrows i with
-  | Option.none => .error .index
-  | some idx => .ok (t.gatherRows idx)
+  match mapE (fun i => match pyIdx t.nrows i with | some j => Except.ok j | Option.none => Except.error Err.index) is with
+  | .error e => .error e
+  | .ok idx => .ok (t.gatherRows idx)
 
 /-- `d[['a', 'b']]` (line 388; _dictattr.py:180-181) -/
 def getProj (t : Table) (ks : List String) : Except Err Table :=
   if ks.isEmpty then .ok t.emptyLike else
-  match ks.mapM fun k => (t.getColE k).map fun c => (k, c) with
+  match mapE (fun k => match t.getColE k with | .ok c => .ok (k, c) | .error e => .error e) ks with
   | .error e => .error e
   | .ok kvs => .ok (ofPairs kvs)
 
@@ -316,7 +326,7 @@ namespace Table
 
 /-- `d.apply(f)`: one value per row (line 670-672) -/
 def applyFn (t : Table) (f : Fn) : Except Err (List Cell) :=
-  (List.range t.nrows).mapM fun i => f.eval (t.cellAt i)
+  mapE (fun i => f.eval (t.cellAt i)) (List.range t.nrows)
 
 /-- `res[key] = res.apply(f)` -/
 def setFn (t : Table) (kf : String × Fn) : Except Err Table :=
@@ -373,10 +383,10 @@ namespace Table
 
 /-- `res[key] = [f(row[key], **others) for row in res]` -/
 def doKey (t : Table) (f : DoFn) (key : String) : Except Err Table :=
-  match (List.range t.nrows).mapM fun i =>
+  match mapE (fun i =>
       match t.cellAt i key with
       | Option.none => Except.error Err.key
-      | some v => f.eval v (t.cellAt i) with
+      | some v => f.eval v (t.cellAt i)) (List.range t.nrows) with
   | .error e => .error e
   | .ok vs => t.setitem key (.many vs)
 
